@@ -71,6 +71,28 @@ def fl(l):
 def events(line):
     return [] if line == "." else [tuple(e.split(" ")) for e in line.split("|")]
 
+def same_event(e, w):
+    """An error event is (kind = error, position); the class derived from the message TEXT is an optional refinement: it is
+    compared only when the driver recognised the text (code 99 = a wording the table does not know, which is not a failure)."""
+    if e[0] != w[0]:
+        return False
+    if e[0] == "X":
+        if e[2] != w[2]:
+            return False
+        return e[1] == w[1] or e[1] == "99" or w[1] == "99"
+    return tuple(e) == tuple(w)
+
+def same_events(ev, want):
+    return len(ev) == len(want) and all(same_event(e, w) for e, w in zip(ev, want))
+
+def same_answer(a, m):
+    """implementation answer vs model answer (or expected answer), wording-independent"""
+    if a == m:
+        return True
+    if not isinstance(a, str) or not isinstance(m, str):
+        return False
+    return same_events(events(a), events(m))
+
 def md_deps(evs):
     return [unhx(e[2]) for e in evs if e[0] == "D"]
 
@@ -184,7 +206,7 @@ def differential(chk, name, reqs, datas, nontrivial=None):
         if m in ("OUTOFFUEL", "OVERREAD") or "OUTOFFUEL" in m or "OVERREAD" in m:
             chk.violation("model-total-" + rq.split(" ")[0], "the extracted model reports %s although the theorem excludes it" % m, dict(request=rq, model=m),
                           found_input=False, broken="extraction / Props/Properties_C19deps.v")
-        if a != m or b != m:
+        if not same_answer(a, m) or not same_answer(b, m):
             ndis += 1
             dl = chk.notes.setdefault("disagreements_" + name, [])
             if len(dl) < 5:
@@ -282,16 +304,22 @@ def requests_for(datas, parser):
     return reqs, ds
 
 def check_answer_shape(chk, rq, d, a):
-    """errors only through the callback, with one of the known messages and an offset inside the buffer (judged on
-    the implementation's answer alone)"""
+    """problems are reported through the error callback with an offset inside the buffer (judged on the implementation's
+    answer alone).  The wording of a message is not part of the property: texts the table of the driver does not know are
+    only counted (notes: unrecognised_error_texts)."""
     if a is None:
         return
-    md = rq.startswith("makedeps")
     for e in errs(events(a)):
-        code, pos = int(e[1]), int(e[2])
-        if code == 99 or code not in (MD_MSG if md else DI_MSG):
-            chk.violation("unknown-error-message", "the parser reported a message the property text does not know: %r" % (unhx(e[3]) if len(e) > 3 else e,),
-                          dict(request=rq, input_repr=repr(d), implementation=a), found_input=True, broken="c19 oracle (error callback)")
+        try:
+            code, pos = int(e[1]), int(e[2])
+        except (ValueError, IndexError):
+            chk.violation("error-event-malformed", "an error event without a numeric position: %r" % (e,), dict(request=rq, input_repr=repr(d), implementation=a),
+                          found_input=False, broken="correspondence: answer format of parse_driver")
+            continue
+        if code == 99:
+            t = chk.notes.setdefault("unrecognised_error_texts", {})
+            txt = (unhx(e[3]).decode("utf-8", "replace") if len(e) > 3 else "<no text>")
+            t[txt] = t.get(txt, 0) + 1
         if pos > len(d):
             chk.violation("error-position-out-of-bounds", "error position %d reported for a buffer of %d bytes" % (pos, len(d)),
                           dict(request=rq, input_repr=repr(d), implementation=a), found_input=True, broken="c19 oracle (positions inside the buffer)")
@@ -464,7 +492,7 @@ def writer_part(chk):
         if a is None:
             continue
         want = [("V", hx(v))] + [(k, hx(s_)) for (k, s_) in recs]
-        if events(a) != want:
+        if not same_events(events(a), want):
             chk.violation("depinfo-roundtrip", "a written dependency-info file is not read back exactly", dict(version=repr(v), records=repr(recs), file_hex=hx(d), request=rq, implementation=a,
                                                                                                              expected="|".join(" ".join(w) for w in want)),
                           found_input=True, broken="c11 oracle (dependency-info round trip) on implementation")
@@ -494,7 +522,7 @@ def writer_part(chk):
         if a is None:
             continue
         ev = events(a)
-        ok = (ev == want) if exact else all(w in ev for w in want)
+        ok = same_events(ev, want) if exact else all(any(same_event(e, w) for e in ev) for w in want)
         if not ok:
             chk.violation("depinfo-malformed-" + fam, "malformed dependency-info file (%s): expected %s %s, got %s" % (fam, "exactly" if exact else "among the events", want, a[:200]),
                           dict(family=fam, file_hex=hx(d), file_repr=repr(d), request=rq, implementation=a), found_input=True,
